@@ -16,7 +16,8 @@ EXPLANATION = (
     'NaN-aware reducers or are masked by a mask computed from the same array; (TAB) both pool_rdm copies handle the same '
     'method strings and every compare() method that the ceilings support. With C05 (ceil_set = training RDMs, complement '
     'of the test group) this gives "the prediction for a group is computed without that group". Optimality of the pooled '
-    'RDM, lower <= upper and scale invariance are NOT decided.')
+    'RDM, lower <= upper and scale invariance are NOT decided.'
+    ' Also: (FOLD-MEAN) the similarities of a left-out group are averaged within the group before they are accumulated.')
 ASSUMPTIONS = ['sets_leave_one_out_rdm returns (train_set, test_set, ceil_set) - checked structurally under C05',
                'numpy nan* reducers ignore NaN; plain reducers propagate it']
 FLOOR = 30
